@@ -273,6 +273,11 @@ void check_scatter(EntryRec& e, LogEntry& le) {
   set_crash_site("append_to_iovec");
   le.append_to_iovec(ps, iov);
   set_crash_site(nullptr);
+  if (tracing()) {
+    tracef("scatter of entry #%d: size=%zu head=%p, %zu elements, %zu pages allocated", e.uid, le.size, (void*)le.head, iov.size(), e.pages.size());
+    for (size_t i = 0; i < iov.size(); i++) tracef("  iov[%zu] = {%p, %zu}", i, iov[i].iov_base, iov[i].iov_len);
+    for (size_t k = 0; k < e.pages.size(); k++) tracef("  allocated[%zu] = %p", k, e.pages[k]);
+  }
   std::set<void*> seen;
   size_t off = 0, tables = 0;
   for (size_t i = 0; i < iov.size(); i++) {
